@@ -88,6 +88,7 @@ fn iomap_text(m: &Option<HashMap<u32, Target>>) -> String {
                     .collect(),
             )
             .to_text()
+            .replace(' ', ",")
         }
     }
 }
